@@ -12,6 +12,15 @@ pub assume_specification<T: Ord> [core::cmp::min] (a: T, b: T) -> (r: T)
 //key: [u8::is_ascii_digit]
 pub assume_specification [u8::is_ascii_digit] (b: &u8) -> (r: bool)
     ensures r == (0x30 <= *b <= 0x39);
+//key: [u8::is_ascii_graphic]
+pub assume_specification [u8::is_ascii_graphic] (b: &u8) -> (r: bool)
+    ensures r == (0x21 <= *b <= 0x7E);
+//key: [u8::is_ascii_alphabetic]
+pub assume_specification [u8::is_ascii_alphabetic] (b: &u8) -> (r: bool)
+    ensures r == ((0x41 <= *b <= 0x5A) || (0x61 <= *b <= 0x7A));
+//key: [u8::is_ascii_whitespace]
+pub assume_specification [u8::is_ascii_whitespace] (b: &u8) -> (r: bool)
+    ensures r == (*b == 0x20 || *b == 0x09 || *b == 0x0A || *b == 0x0C || *b == 0x0D);
 //key: [u8::is_ascii_hexdigit]
 pub assume_specification [u8::is_ascii_hexdigit] (b: &u8) -> (r: bool)
     ensures r == ((0x30 <= *b <= 0x39) || (0x41 <= *b <= 0x46) || (0x61 <= *b <= 0x66));
